@@ -140,14 +140,18 @@ def moves_rule(chk, r2="C06.R2", r4="C06.R4"):
                     continue
                 f = handrules.ctor_fields(repo, "QBytesTensor", p.end[1]) if handrules.is_ctor(p.end[1]) else None
                 pf = path_facts(p)
+                wide_only = any("dtype.itemsize" in k for k in pf)  # the guard also keeps 8-bit float dtypes away from the scale
+                chk.require(r4, f"{h.mi.rel}:{p.end[2]}", wide_only, f"QBytes {h.name}: an 8-bit float dtype never reaches the scale (guard on dtype.itemsize on the path: {wide_only})", h.name, "scale cast to an 8-bit float dtype",
+                            "q.to(torch.float8_e4m3fn) on a qint8 tensor (or model.to(torch.float8_e4m3fn) on a frozen model): a QBytesTensor whose scale is float8; dequantize() and every fallback raise `Promotion for Float8 Types is not supported`")
                 float_dtype = pf.get("dtype is None") is True or pf.get("dtype.is_floating_point") is True or any(
+                    v is False and "dtype is not None" in k and "dtype.is_floating_point" in k for k, v in pf.items()) or any(
                     v is False and "dtype is not None" in k and "not dtype.is_floating_point" in k and " or " not in k for k, v in pf.items()) or any(
                     v is True and "dtype is None" in k and " or dtype.is_floating_point" in k and " and " not in k for k, v in pf.items())
                 if f is None:
                     # a move to a non-floating dtype cannot keep the tensor quantized (the scale would be cast to an integer): it converts the dequantized values
                     e_ = p.end[1]
                     fallback = handrules.is_op_call(e_) and [U(a) for a in e_.args] == [f"{x}.dequantize()"] and {k.arg: U(k.value) for k in e_.keywords} == {"dtype": "dtype", None: kwn}
-                    if fallback and pf.get("dtype is None") is False and pf.get("dtype.is_floating_point") is False:
+                    if fallback and pf.get("dtype is None") is False and (pf.get("dtype.is_floating_point") is False or any("dtype.is_floating_point" in k and v is True and " or " in k for k, v in pf.items())):
                         chk.ok(r4, f"{h.mi.rel}:{p.end[2]}", f"QBytes {h.name}: a move to a non-floating dtype converts the dequantized values (`{U(e_)[:60]}`)")
                     else:
                         chk.unknown(r4, site, "QBytes _to_copy does not return a constructor call")
@@ -202,9 +206,16 @@ def moves_rule(chk, r2="C06.R2", r4="C06.R4"):
                     return {k.arg: U(k.value) for k in c.keywords} if isinstance(c, ast.Call) else {}
                 kwn = fn.args.kwarg.arg if fn.args.kwarg else None
                 d, s, z = f["data"], f["scale"], f["zeropoint"]
-                ok_d = handrules.is_op_call(d) and _norm_src(U(d.args[0])) == f"{x}._data" and "dtype" not in kwof(d) and kwof(d).get("device") == "device" and kwof(d).get(None) == kwn
-                ok_z = handrules.is_op_call(z) and _norm_src(U(z.args[0])) == f"{x}._zeropoint" and "dtype" not in kwof(z) and kwof(z).get("device") == "device" and kwof(z).get(None) == kwn
-                ok_s = handrules.is_op_call(s) and _norm_src(U(s.args[0])) == f"{x}._scale" and kwof(s).get("dtype") == "dtype" and kwof(s).get("device") == "device" and kwof(s).get(None) == kwn
+                # the other arguments are forwarded; the memory format describes the layout of the data, so the (grouped, 2-D) scale and zero-point get
+                # the arguments without it, and so does a payload that no longer has the shape of the tensor
+                no_mf = (f"{{k: v for (k, v) in {kwn}.items() if k != 'memory_format'}}", f"{{k: v for k, v in {kwn}.items() if k != 'memory_format'}}")
+                rest_d = kwof(d).get(None)
+                ok_rest_d = rest_d in (kwn,) + no_mf or (isinstance(rest_d, str) and rest_d.startswith(f"{kwn} if ") and any(rest_d.endswith(" else " + m_) for m_ in no_mf))
+                ok_d = handrules.is_op_call(d) and _norm_src(U(d.args[0])) == f"{x}._data" and "dtype" not in kwof(d) and kwof(d).get("device") == "device" and ok_rest_d
+                ok_z = handrules.is_op_call(z) and _norm_src(U(z.args[0])) == f"{x}._zeropoint" and "dtype" not in kwof(z) and kwof(z).get("device") == "device" and kwof(z).get(None) in (kwn,) + no_mf
+                ok_s = handrules.is_op_call(s) and _norm_src(U(s.args[0])) == f"{x}._scale" and kwof(s).get("dtype") == "dtype" and kwof(s).get("device") == "device" and kwof(s).get(None) in (kwn,) + no_mf
+                chk.require(r4, site, kwof(s).get(None) in no_mf and kwof(z).get(None) in no_mf, f"QBits {h.name}: the memory format is not forwarded to the scale / zero-point (`**{kwof(s).get(None)}`)", h.name, "memory_format forwarded to the scale",
+                            "a group-wise qint4 Conv2d weight (rank 4) moved with .to(memory_format=torch.channels_last) - what nn.Module.to(memory_format=...) does to every 4-D parameter: RuntimeError `required rank 4 tensor` from the 2-D grouped scale")
                 chk.require(r4, site, ok_d and ok_z, f"QBits {h.name}: payload and zero-point moved with device only (no dtype)", h.name, "payload/zeropoint moved without dtype", "q4.to(device, dtype=q4.dtype): integer payload cast to a float dtype")
                 chk.require(r4, site, ok_s, f"QBits {h.name}: scale moved with dtype and device", h.name, "scale moved", "q4.to(device)")
         if "aten.detach" in h.ops:
